@@ -168,3 +168,4 @@ VP('C17', 'C17-e2', 'C17.R1', 'arg=global_schema')
 VP('C17', 'C17-e3', 'C17.R5', 'records-new-state')
 VP('C17', 'C17-f3', 'C17.R9', 'sync-before-error-reply')
 VP('C17', 'C09-f3', 'C17.R10', 'remember-after-compile')
+VP('C17', 'C17-f2', 'C17.R11', 'preargs-go-to-their-worker')
